@@ -121,6 +121,12 @@ class Coords(Op):
         return dict(n=draw(st.integers(1, 4)), src=draw(st.sampled_from(MODELS)))
 
     def unit(self, draw, params):
+        if draw(st.integers(0, 4)) == 0:
+            # a point a few thousandths from the origin: its hyperboloid representative has
+            # time coordinate 1 + O(1e-5)
+            d = draw(gen.directions(params["n"]))
+            r = draw(st.sampled_from([3e-3, 1e-3, 4e-3]))
+            return [r * x for x in d]
         return draw(gen.klein_point(params["n"], rmax=0.95))
 
     def run(self, params, units, shape, ctx=None):
@@ -146,7 +152,11 @@ class AffineCoords(Op):
 
     def unit(self, draw, params):
         v = draw(objs.s_vec(params["n"] + 1))
-        v[params["chart"]] = draw(gen.scalars_pm(0.5, 2.0))
+        # the chart coordinate: generic, or within 1e-5 of 1 without being 1 (what a
+        # normalised representative of a point near the chart origin looks like), or exactly 1
+        v[params["chart"]] = draw(st.one_of(
+            gen.scalars_pm(0.5, 2.0), gen.scalars_pm(0.5, 2.0),
+            st.sampled_from([1.0 + 4.5e-6, 1.0 - 7e-6, 1.0, 1.0 + 2e-6, -1.0 - 4.5e-6])))
         return v
 
     def run(self, params, units, shape, ctx=None):
@@ -570,6 +580,40 @@ class FixedPoints(Op):
         return out
 
 
+class Eigenvector(Op):
+    """Transformation.eigenvector / diagonalize on a composite = on each unit; the requested
+    eigenvalue may be repeated (reflections, conjugates of diag(3, 1, 1)): whichever
+    eigenvector the unit call reports is what the composite reports at that index"""
+    name = "eigenvector"
+
+    def params(self, draw):
+        return dict(n=draw(st.integers(2, 3)), lam=draw(st.sampled_from([1.0, 1.0, 3.0, -1.0])))
+
+    def unit(self, draw, params):
+        n = params["n"]
+        spec = draw(st.sampled_from([[3.0, 1.0, 1.0, 1.0], [3.0, 1.0, 1.0, -1.0],
+                                     [-1.0, 1.0, 1.0, 1.0], [1.0, 3.0, -1.0, 3.0]]))[:n + 1]
+        if params["lam"] not in spec:
+            spec[0] = params["lam"]
+        return dict(S=draw(gen.wellcond_matrix(n + 1, maxfactor=2.0)), spec=spec)
+
+    def run(self, params, units, shape, ctx=None):
+        n = params["n"]
+        mats = []
+        for u in units:
+            S = np.array(u["S"], dtype=float)
+            mats.append(S @ np.diag(u["spec"]) @ np.linalg.inv(S))
+        M = np.array(mats).reshape(tuple(shape) + (n + 1, n + 1))
+        T = P.Transformation(M.copy(), column_vectors=True)
+        v = T.eigenvector(params["lam"])
+        out = [("shape", tuple(v.shape), "shape"), ("eigenvector", np.array(v.proj_data), "proj")]
+        if ctx is not None:
+            V = np.array(v.proj_data)
+            res = np.einsum("...ij,...j->...i", M, V) - params["lam"] * V
+            ctx.small("reported eigenvector: M v = lambda v", res, 1e-8 * (1 + np.abs(V).max()))
+        return out
+
+
 class Sl2Irrep(Op):
     name = "sl2_irrep"
 
@@ -720,7 +764,7 @@ class MixedCausal(Op):
 
 OPS = [MixedCausal(), Coords(), AffineCoords(), Distance(), OriginTo(), TvOriginTo(), UnitTangent(),
        PointAlong(), SegmentCtor(), PolygonEdges(), CircleParameters(), SphereParameters(),
-       FixedPoints(), Sl2Irrep(), Sl2ToSo21(), HoroArc()]
+       FixedPoints(), Eigenvector(), Sl2Irrep(), Sl2ToSo21(), HoroArc()]
 OP = {o.name: o for o in OPS}
 
 
